@@ -1,6 +1,7 @@
 package checks
 
 import (
+	"bytes"
 	"crypto/sha256"
 	"encoding/binary"
 	"fmt"
@@ -255,12 +256,21 @@ func evalPure(c *core.Ctx, cs *core.Case) {
 // returned barcode must not change when the argument is overwritten afterwards.
 func evalAlias(c *core.Ctx, cs *core.Case) {
 	pct, layers := prm(cs, 0), prm(cs, 1)
-	for variant := 0; variant < 2; variant++ {
-		arg := append([]byte(nil), cs.S...)
+	for variant := 0; variant < 4; variant++ {
+		// the argument is a window of a larger buffer (a field cut from a record): variants 0,1 leave spare
+		// capacity behind it, variants 2,3 do not; nothing of the caller's buffer may change
+		n := len(cs.S)
+		buf := bytes.Repeat([]byte{0xA5}, n+16)
+		copy(buf[8:], cs.S)
+		whole := string(buf)
+		arg := buf[8 : 8+n]
+		if variant >= 2 {
+			arg = buf[8 : 8+n : 8+n]
+		}
 		var bc barcode.Barcode
 		var err error
 		if p, _ := Safely(func() {
-			if variant == 0 {
+			if variant%2 == 0 {
 				bc, err = aztec.Encode(arg, pct, layers)
 			} else {
 				bc, err = aztec.EncodeWithColor(arg, pct, layers, customScheme)
@@ -270,6 +280,10 @@ func evalAlias(c *core.Ctx, cs *core.Case) {
 		}
 		if string(arg) != string(cs.S) {
 			c.Fail("C15", cs, "encoder modified the caller's slice: %q -> %q", cs.S, arg)
+			return
+		}
+		if string(buf) != whole {
+			c.Fail("C15", cs, "encoder wrote into the caller's buffer outside the slice it was given (the slice is bytes 8..%d of %q, afterwards the buffer is %q)", 8+n, whole, buf)
 			return
 		}
 		if err != nil || bc == nil {
@@ -465,7 +479,7 @@ func c15Body(c *core.Ctx) {
 	}
 	Run(c, &core.Case{Fam: "alias", S: azFills[3](300), P: []int{33, 0}})
 	Run(c, &core.Case{Fam: "alias", S: azFills[2](100), P: []int{33, 0}})
-	c.R.Bound("aliasing", fmt.Sprintf("all words <= %d over %q x layers {auto,-2,3} x {23,80}%%, both Encode and EncodeWithColor, every byte position overwritten with two patterns", wl, azClass))
+	c.R.Bound("aliasing", fmt.Sprintf("all words <= %d over %q x layers {auto,-2,3} x {23,80}%%, both Encode and EncodeWithColor, the argument passed as a window of a larger buffer with and without spare capacity (the whole buffer must stay unchanged), every byte position overwritten with two patterns", wl, azClass))
 	c.R.Sample(map[string]any{"ops": []string{names[len(names)/3], names[0], names[len(names)/3]}, "oracle": "each observation == observation of the same call in a freshly started process; caches == reference generator polynomials"})
 }
 
